@@ -1592,7 +1592,110 @@ func c14SharedObjectsUntouched(r *fw.Rec) {
 	}
 }
 
+// c14TransientStates: a print made while the IR is in a state a later edit
+// resolves (two values of one name; a metadata definition that is removed again)
+// must leave no trace: the same edits without the print are the reference.
+func c14TransientStates(r *fw.Rec) {
+	type hist struct {
+		name string
+		run  func(observe func(m *ir.Module)) string
+	}
+	hs := []hist{
+		{"print-while-two-values-share-a-name", func(observe func(m *ir.Module)) string {
+			m := ir.NewModule()
+			f := m.NewFunc("f", types.I32, ir.NewParam("x", types.I32))
+			b := f.NewBlock("entry")
+			a := b.NewAdd(f.Params[0], constant.NewInt(types.I32, 1))
+			a.SetName("tmp")
+			c := b.NewMul(a, a)
+			c.SetName("tmp")
+			b.NewRet(c)
+			observe(m)
+			a.SetName("sum")
+			return m.String()
+		}},
+		{"print-while-two-blocks-share-a-name", func(observe func(m *ir.Module)) string {
+			m := ir.NewModule()
+			f := m.NewFunc("f", types.Void)
+			b1, b2 := f.NewBlock("bb"), f.NewBlock("bb")
+			b1.NewBr(b2)
+			b2.NewRet(nil)
+			observe(m)
+			b1.SetName("first")
+			return m.String()
+		}},
+		{"print-remove-definition-add-definition", func(observe func(m *ir.Module)) string {
+			m := ir.NewModule()
+			mk := func(s string) *metadata.Tuple {
+				return &metadata.Tuple{MetadataID: -1, Fields: []metadata.Field{&metadata.String{Value: s}}}
+			}
+			d0, d1 := mk("zero"), mk("one")
+			m.MetadataDefs = append(m.MetadataDefs, d0, d1)
+			nm := &metadata.NamedDef{Name: "flags", Nodes: []metadata.Node{d0}}
+			m.NamedMetadataDefs["flags"] = nm
+			observe(m)
+			m.MetadataDefs = m.MetadataDefs[:1] // the definition the print numbered last goes away again
+			d2 := mk("two")
+			m.MetadataDefs = append(m.MetadataDefs, d2)
+			nm.Nodes = append(nm.Nodes, d2)
+			return m.String()
+		}},
+		{"print-replace-definition-keeping-the-count", func(observe func(m *ir.Module)) string {
+			m := ir.NewModule()
+			mk := func(s string) *metadata.Tuple {
+				return &metadata.Tuple{MetadataID: -1, Fields: []metadata.Field{&metadata.String{Value: s}}}
+			}
+			d0, d1 := mk("zero"), mk("one")
+			m.MetadataDefs = append(m.MetadataDefs, d0, d1)
+			nm := &metadata.NamedDef{Name: "flags", Nodes: []metadata.Node{d0, d1}}
+			m.NamedMetadataDefs["flags"] = nm
+			observe(m)
+			d2 := mk("two")
+			m.MetadataDefs[1] = d2
+			nm.Nodes[1] = d2
+			return m.String()
+		}},
+	}
+	observers := map[string]func(m *ir.Module){
+		"Module.String": func(m *ir.Module) { _ = m.String() },
+		"Func.LLString+AssignIDs": func(m *ir.Module) {
+			for _, f := range m.Funcs {
+				_ = f.AssignIDs()
+				_ = f.LLString()
+			}
+			_ = m.AssignMetadataIDs()
+		},
+	}
+	for _, h := range hs {
+		var ref string
+		if p, _, _ := fw.Guard(func() { ref = h.run(func(*ir.Module) {}) }); p {
+			r.Inconclusive("transient-state reference fails: " + h.name)
+			continue
+		}
+		for _, on := range fw.SortedKeys(observers) {
+			r.Eval(1)
+			obs := observers[on]
+			var got string
+			p, msg, _ := fw.Guard(func() {
+				got = h.run(func(m *ir.Module) { fw.Guard(func() { obs(m) }) })
+			})
+			key := "transient-state/" + h.name + "/" + on
+			if p {
+				r.Violate(fw.Violation{Key: key, What: "the history fails only with the intermediate print: " + firstLine(msg)})
+				continue
+			}
+			if got != ref {
+				r.Violate(fw.Violation{Key: key, What: "an intermediate print (" + on + ") of a state that the next edit resolves changes the final text: " + firstDiffLines(ref, got), Expected: ref, Observed: got})
+				continue
+			}
+			r.Nontrivial(key)
+			r.Tally("witness", "holds:"+key)
+		}
+	}
+}
+
 func c14FailedPrint(r *fw.Rec) {
+	c14TransientStates(r)
 	c14FailedPrintInNumbering(r)
 	c14QueryEditRewrite(r)
 	c14RetargetAfterPrint(r)
